@@ -1,4 +1,5 @@
 import PygVerif.Model.Zip
+import PygVerif.Lemmas.ZipTree
 import PygVerif.Props.C01
 /-!
 # C16 — ZIP archives are transparent
@@ -295,6 +296,200 @@ example : (buildIndex [⟨lit "dir/file.txt", lit "dir/file.txt", false, []⟩,
 /-- a dangling and a self-referential link are simply absent -/
 example : (buildIndex [⟨lit "a", lit "a", false, []⟩, ⟨lit "d", lit "d", true, lit "nowhere"⟩,
                        ⟨lit "s", lit "s", true, lit "s"⟩]).map (fun ix => listdir ix []) = some (some [lit "a"]) := by
+  decide +kernel
+
+/-! ### browsing the archive is browsing the tree it stands for -/
+
+/-- every name of a directory leads somewhere: `listdir` gives exactly the member names of the tree -/
+theorem names_lead_somewhere (ix : Index) (p : Path) (c : Str) (h : c ∈ names ix p) : (child ix p c).isSome = true := by
+  unfold names at h
+  rw [List.mem_eraseDups, List.mem_append] at h
+  have key : ∀ (q : Path), q.dropLast = p ∧ q ≠ [] → q.getLast? = some c → q = p ++ [c] := by
+    intro q hq hl
+    rcases List.eq_nil_or_concat q with h0 | ⟨l, a, rfl⟩
+    · exact absurd h0 hq.2
+    · have h1 : l = p := by simpa using hq.1
+      have h2 : a = c := by simpa using hl
+      rw [h1, h2]; simp
+  unfold child
+  rcases h with h | h
+  · rw [List.mem_filterMap] at h
+    obtain ⟨⟨q, k⟩, hm, hq⟩ := h
+    by_cases hc : q.dropLast = p ∧ q ≠ []
+    · simp only [] at hq
+      rw [if_pos hc] at hq
+      have hqe := key q hc hq
+      subst hqe
+      cases ix.alias? (p ++ [c]) with
+      | some t => rfl
+      | none =>
+        have : (ix.kind? (p ++ [c])).isSome = true := by
+          unfold Index.kind?
+          have hne : p ++ [c] ≠ [] := by simp
+          simp only [hne, if_false, Option.isSome_map]
+          rw [List.find?_isSome]
+          exact ⟨(p ++ [c], k), hm, by simp⟩
+        simp [this]
+    · simp [hc] at hq
+  · rw [List.mem_filter, List.mem_filterMap] at h
+    obtain ⟨⟨⟨q, t⟩, hm, hq⟩, _⟩ := h
+    by_cases hc : q.dropLast = p ∧ q ≠ []
+    · simp only [] at hq
+      rw [if_pos hc] at hq
+      have hqe := key q hc hq
+      subst hqe
+      have : (ix.alias? (p ++ [c])).isSome = true := by
+        unfold Index.alias?
+        rw [Option.isSome_map, List.find?_isSome]
+        exact ⟨(p ++ [c], t), hm, by simp⟩
+      cases ha : ix.alias? (p ++ [c]) with
+      | some t' => rfl
+      | none => rw [ha] at this; simp at this
+    · simp [hc] at hq
+
+theorem map_fst_filterMap (l : List Str) (h : Str → Option Path) (g : Path → Node) (hall : ∀ c ∈ l, (h c).isSome = true) :
+    (l.filterMap fun n => (h n).map fun t => (n, g t)).map (·.1) = l := by
+  induction l with
+  | nil => rfl
+  | cons n ns ih =>
+    have hn := hall n (by simp)
+    cases hh : h n with
+    | none => rw [hh] at hn; simp at hn
+    | some t =>
+      simp only [List.filterMap_cons, hh, Option.map_some, List.map_cons]
+      rw [ih (fun c hc => hall c (by simp [hc]))]
+
+/-- a directory node of the index is a directory of the tree with exactly the names `listdir` gives, in that order -/
+theorem toTree_dir (ix : Index) (data : Str → Bytes) (f : Nat) (t : Path) (h : ix.kind? t = some .dir) :
+    (toTree ix data (f + 1) t).names = some (names ix t) := by
+  unfold toTree
+  simp only [h, Node.names]
+  rw [map_fst_filterMap _ _ _ (fun c hc => names_lead_somewhere ix t c hc)]
+
+/-- a file node of the index is a file of the tree holding the member's bytes -/
+theorem toTree_file (ix : Index) (data : Str → Bytes) (f : Nat) (t : Path) (o : Str) (h : ix.kind? t = some (.file o)) :
+    toTree ix data (f + 1) t = .file (data o) := by
+  unfold toTree; simp [h]
+
+/-- **Browsing into the archive is browsing the tree it stands for** (`T`, the index unfolded
+    deeper than the path is long — what extracting the archive puts on disk, with every resolved
+    link standing for its destination).  For every archive-internal path whose components are
+    neither empty nor `.`: where `VFSZip` finds nothing the tree has nothing (same not-found
+    answers); where it finds a directory the tree has a directory whose member names are what
+    `listdir` returns, in the same order (same listings); where it finds a file member the tree
+    has a file with that member's bytes (same documents).  Resolved links are followed exactly
+    as the kernel follows them in the extracted tree (`lwalk` descends into the destination). -/
+theorem archive_answers_as_extracted_tree (ix : Index) (data : Str → Bytes) (s : Str) (hs : s ≠ [])
+    (hclean : ∀ c ∈ splitOn 47 s, c ≠ [] ∧ c ≠ [46]) (fuel : Nat) (hf : (splitOn 47 s).length + 1 < fuel) :
+    match lookup ix s with
+    | none => lwalk (toTree ix data fuel []) (splitOn 47 s) = none
+    | some t => ∃ n, lwalk (toTree ix data fuel []) (splitOn 47 s) = some n ∧
+        (ix.kind? t = some .dir → n.names = some (names ix t)) ∧
+        (∀ o, ix.kind? t = some (.file o) → n = .file (data o)) := by
+  have hw := Zip.lwalk_toTree ix data (splitOn 47 s) fuel [] (by omega) hclean
+  have hl : lookup ix s = Zip.walk ix [] (splitOn 47 s) := by
+    unfold lookup
+    have : s.isEmpty = false := by cases s with | nil => exact absurd rfl hs | cons _ _ => rfl
+    simp [this]
+  rw [hl]
+  cases hwk : Zip.walk ix [] (splitOn 47 s) with
+  | none => rw [hwk] at hw; simpa using hw
+  | some t =>
+    rw [hwk] at hw
+    simp only [Option.map_some] at hw
+    obtain ⟨k, hk⟩ : ∃ k, fuel - (splitOn 47 s).length = k + 1 := ⟨fuel - (splitOn 47 s).length - 1, by omega⟩
+    rw [hk] at hw
+    exact ⟨_, hw, fun hd => toTree_dir ix data k t hd, fun o ho => toTree_file ix data k t o ho⟩
+
+theorem filterMap_congr' {α β : Type} (l : List α) (f g : α → Option β) (h : ∀ x ∈ l, f x = g x) :
+    l.filterMap f = l.filterMap g := by
+  induction l with
+  | nil => rfl
+  | cons a as ih =>
+    simp only [List.filterMap_cons, h a (by simp)]
+    rw [ih (fun x hx => h x (by simp [hx]))]
+
+/-- **A link-free archive stands for one finite tree.**  If no member path is longer than `D`,
+    unfolding deeper than `D + 1` changes nothing: `toTree ix data (D + 1) []` is *the* extracted
+    tree, and `archive_answers_as_extracted_tree` holds for it at every depth (`k` levels suffice
+    below a node at depth `p.length` once `p.length + k > D`). -/
+theorem toTree_saturates (ix : Index) (data : Str → Bytes) (hal : ix.aliases = []) (D : Nat)
+    (hD : ∀ q ∈ ix.nodes, q.1.length ≤ D) :
+    ∀ (k f : Nat) (p : Path), D + 1 ≤ p.length + k → k ≤ f → toTree ix data f p = toTree ix data k p := by
+  intro k
+  induction k with
+  | zero =>
+    intro f p hp _
+    cases f with
+    | zero => rfl
+    | succ f =>
+      have hne : p ≠ [] := by intro h; subst h; simp at hp
+      have hk : ix.kind? p = none := by
+        unfold Index.kind?
+        simp only [hne, if_false, Option.map_eq_none_iff, List.find?_eq_none]
+        intro x hx hxe
+        have h1 := hD x hx
+        have h2 : x.1 = p := by simpa using hxe
+        rw [h2] at h1
+        omega
+      unfold toTree; simp [hk]
+  | succ k ih =>
+    intro f p hp hkf
+    cases f with
+    | zero => omega
+    | succ f =>
+      unfold toTree
+      cases hk : ix.kind? p with
+      | none => rfl
+      | some kd =>
+        cases kd with
+        | file o => rfl
+        | dir =>
+          simp only
+          congr 1
+          apply filterMap_congr'
+          intro c _
+          unfold child Index.alias?
+          simp only [hal, List.find?_nil, Option.map_none]
+          by_cases h2 : (ix.kind? (p ++ [c])).isSome = true
+          · simp only [h2, if_true, Option.map_some]
+            rw [ih f (p ++ [c]) (by simp; omega) (by omega)]
+          · simp [h2]
+
+/-- non-vacuity of the saturation hypothesis, and the unfolding is indeed stable there -/
+example : (buildIndex [⟨lit "dir/file.txt", lit "dir/file.txt", false, []⟩, ⟨lit "a", lit "a", false, []⟩]).map
+    (fun ix => (ix.aliases.isEmpty, ix.nodes.all (fun q => decide (q.1.length ≤ 2)),
+      (lwalk (toTree ix (fun o => o) 3 []) [lit "dir", lit "file.txt"]).bind Node.fileData,
+      (lwalk (toTree ix (fun o => o) 9 []) [lit "dir", lit "file.txt"]).bind Node.fileData)) =
+  some (true, true, some (lit "dir/file.txt"), some (lit "dir/file.txt")) := by
+  decide +kernel
+
+/-- selectors that are not below the archive are not the archive's to answer: the view hands
+    them to the underlying file system unchanged (an absolute selector in a gophermap member
+    means the site's object, as it does once the archive is extracted) -/
+theorem outside_selectors_are_the_file_systems (ix : Index) (data : Str → Bytes) (fuel : Nat) (zipSel : Str)
+    (chain : StatFn) (sel : Str) (h : inArchive zipSel sel = false) :
+    zipStat ix data fuel zipSel chain sel = chain sel := by
+  unfold zipStat; simp [h]
+
+/-- and no member can answer for them, whatever its name: the answer does not depend on the index -/
+theorem outside_selectors_ignore_the_members (ix ix' : Index) (data data' : Str → Bytes) (fuel fuel' : Nat) (zipSel : Str)
+    (chain : StatFn) (sel : Str) (h : inArchive zipSel sel = false) :
+    zipStat ix data fuel zipSel chain sel = zipStat ix' data' fuel' zipSel chain sel := by
+  rw [outside_selectors_are_the_file_systems _ _ _ _ _ _ h, outside_selectors_are_the_file_systems _ _ _ _ _ _ h]
+
+/-- a selector that merely starts with the archive's name (`/a.zipper/x`, or `/outside/data.txt`
+    of the same length) is not below it -/
+example : inArchive (lit "/a.zip") (lit "/a.zipper/x") = false ∧ inArchive (lit "/a.zip") (lit "/other/ta.txt") = false ∧
+    inArchive (lit "/a.zip") (lit "/a.zip") = true ∧ inArchive (lit "/a.zip") (lit "/a.zip/ta.txt") = true := by decide
+
+/-- non-vacuity: an archive with a link, browsed through the link, as a tree -/
+example : (buildIndex [⟨lit "dir/file.txt", lit "dir/file.txt", false, []⟩,
+                       ⟨lit "link1", lit "link1", true, lit "dir"⟩]).map
+    (fun ix => ((lwalk (toTree ix (fun o => o) 4 []) [lit "link1", lit "file.txt"]).bind Node.fileData,
+                (lwalk (toTree ix (fun o => o) 4 []) [lit "link1"]).bind Node.names,
+                (toTree ix (fun o => o) 4 []).names)) =
+  some (some (lit "dir/file.txt"), some [lit "file.txt"], some [lit "dir", lit "link1"]) := by
   decide +kernel
 
 end Pyg.Props.C16
